@@ -30,6 +30,11 @@ async def pass_all(_name, _sig, _context):
     return types.ValidResult.PASS
 
 
+# How long a management command waits for the system clock to move on since the previous command
+# (the clock may tick every 16 ms or slower; two commands with one timestamp are refused by NFD)
+_MAX_TIMESTAMP_WAIT_MS = 1000
+
+
 class NfdRegister(PrefixRegisterer):
     _prefix_register_semaphore: aio.Semaphore = None
     _last_command_timestamp: int = 0
@@ -41,7 +46,7 @@ class NfdRegister(PrefixRegisterer):
     async def register(self, name: enc.NonStrictName) -> bool:
         # Fix the issue that NFD only allows one packet signed by a specific key for a timestamp number
         async with self._prefix_register_semaphore:
-            for _ in range(10):
+            for _ in range(_MAX_TIMESTAMP_WAIT_MS):
                 now = utils.timestamp()
                 if now > self._last_command_timestamp:
                     self._last_command_timestamp = now
@@ -78,7 +83,7 @@ class NfdRegister(PrefixRegisterer):
     async def unregister(self, name: enc.NonStrictName) -> bool:
         # Fix the issue that NFD only allows one packet signed by a specific key for a timestamp number
         async with self._prefix_register_semaphore:
-            for _ in range(10):
+            for _ in range(_MAX_TIMESTAMP_WAIT_MS):
                 now = utils.timestamp()
                 if now > self._last_command_timestamp:
                     self._last_command_timestamp = now
